@@ -9,6 +9,7 @@ import KiraModel.Exec.SuiteSrate
 import KiraModel.Exec.SuiteModulator
 import KiraModel.Exec.SuiteModSys
 import KiraModel.Exec.SuiteClock
+import KiraModel.Exec.SuiteSpatial
 
 open K.Exec K.Exec.Clock
 
@@ -33,6 +34,7 @@ def suiteOf (name : String) : Option Suite :=
   | "clock" => some { σ := ClockSuiteState, init := {}, step := clockStep }
   | "clocksys" => some { σ := SysSuiteState, init := {}, step := clockSysStep }
   | "clocktear" => some { σ := TearState, init := {}, step := tearStep }
+  | "spatial" => some { σ := Option (K.Scene Float), init := none, step := spatialStep }
   | _ => none
 
 def tokens (line : String) : List String :=
